@@ -271,7 +271,7 @@ def c08_1(ctx: Ctx) -> RuleResult:
                 if vt[0] == "unary" and vt[1] == "-":
                     # flipped copy: negates the row just written, under `if <flip_k>`
                     cur = parent(n)
-                    ft = X.at(m, cur.test) if isinstance(cur, ast.If) else ("const", None)
+                    ft = X.value_at(m, cur.test) if isinstance(cur, ast.If) else ("const", None)
                     same_row = vt[2][0] == "sub" and any(x == row for x in subterms(vt[2][2]))
                     flip_ok = elem_of(ft, flip_field) and same_row
                 else:
@@ -495,7 +495,7 @@ def c08_4(ctx: Ctx) -> RuleResult:
         tests = set()
         store_keys = {}
         for n in nodes_in(f, ast.If):
-            t = ctx.X.at(f, n.test)
+            t = ctx.X.value_at(f, n.test)
             if contains(t, lambda s: s[0] == "cmp" and s[1] == "is not" and s[3] == ("const", None) and ends_with_attrs(s[2], "optimizer", "max_iterations")):
                 tests.update(cfg.node_containing(n.test))
                 for s in ast.walk(n):
@@ -637,7 +637,7 @@ def c08_6(ctx: Ctx) -> RuleResult:
     conds = []
     for n in nodes_in(chk, ast.If):
         if any(isinstance(x, ast.Raise) for s in n.body for x in ast.walk(s)):
-            conds.append(ctx.X.at(chk, n.test))
+            conds.append(ctx.X.value_at(chk, n.test))
     def has(c, neg_have, neg_in):
         if c[0] != "bool" or c[1] != "and" or len(c[2]) != 2:
             return False
@@ -720,7 +720,7 @@ def c08_6(ctx: Ctx) -> RuleResult:
     if ib is not None:
         for n_ in nodes_in(ib, ast.If):
             if any(isinstance(x, ast.Call) and ctx.X.at(ib, x.func) == ("global", "scipy.optimize.Bounds") for s_ in n_.body for x in ast.walk(s_)):
-                t = ctx.X.at(ib, n_.test)
+                t = ctx.X.value_at(ib, n_.test)
                 bad = []
                 for lo_, up_ in itertools.product(("all", "mixed", "none"), repeat=2):
                     v = eval_finiteness(t, {"lower": lo_, "upper": up_})
